@@ -114,6 +114,10 @@ def extra_rules(opts):
         ex.append(("R5",))
     if opts.get("R14"):
         ex.append(("R14",))
+    if opts.get("R17"):
+        ex.append(("R17",))
+    if "R18" in opts:
+        ex.append(("R18", list(opts["R18"])))
     for frm, to in opts.get("RX", []):
         ex.append(("RX", frm.split(), to.split()))
     return ex
